@@ -4,8 +4,8 @@ import json, glob, os
 print('| seed | what the change needs to manifest | caught by | note |')
 print('|---|---|---|---|')
 for f in sorted(glob.glob('/verif/seeded/*/meta.json')):
-    m=json.load(open(f)); pid=m['property']
+    m=json.load(open(f)); pid=m['property']; sid=os.path.basename(os.path.dirname(f))
     cr=m['check_result']
     sig=(cr.get('first_violation') or '').split('sig=')[-1].split(' ')[0] if cr.get('first_violation') else ''
     note=m.get('caught_only_after_strengthening','')
-    print(f"| {pid} | {m['needs_to_manifest']} | {'`./run.sh '+pid+' quick` ('+sig+')' if cr['caught'] else 'MISSED'} | {note} |")
+    print(f"| {sid} | {m['needs_to_manifest']} | {'`./run.sh '+pid+' quick` ('+sig+')' if cr['caught'] else 'MISSED'} | {note} |")
